@@ -153,22 +153,33 @@ func (a *APKExpanded) PackageData() (*os.File, error) {
 		return nil, fmt.Errorf("parsing %q: %w", a.PackageFile, err)
 	}
 
+	// Decompress into a temporary file next to the final name and rename it into place, so that
+	// neither a concurrent reader nor a crash ever sees a partial tar under the final name.
 	verifhook.Point("regen.begin " + a.TarFile)
-	uf, err = os.Create(a.TarFile)
+	uf, err = os.CreateTemp(filepath.Dir(a.TarFile), filepath.Base(a.TarFile)+".*.tmp")
 	if err != nil {
 		return nil, fmt.Errorf("opening tar file %q: %w", a.TarFile, err)
 	}
+	_ = uf.Chmod(os.FileMode(0644))
 
 	verifhook.Point("regen.created " + a.TarFile)
 	buf := pooledSlice()
 	defer slicePool.Put(buf)
 
 	if _, err := io.CopyBuffer(uf, zr, buf); err != nil {
+		uf.Close()
+		_ = os.Remove(uf.Name())
 		return nil, fmt.Errorf("decompressing %q: %w", a.PackageFile, err)
 	}
 
 	if err := uf.Close(); err != nil {
+		_ = os.Remove(uf.Name())
 		return nil, fmt.Errorf("closing %q: %w", a.TarFile, err)
+	}
+
+	if err := os.Rename(uf.Name(), a.TarFile); err != nil {
+		_ = os.Remove(uf.Name())
+		return nil, fmt.Errorf("renaming %q: %w", a.TarFile, err)
 	}
 
 	verifhook.Point("regen.done " + a.TarFile)
